@@ -3245,15 +3245,18 @@ theorem C20_empty_macro_in_string :
       | _ => []) = "\"n\" \"xy\"\n".toList := by
   decide +kernel
 
-/-- a macro or snippet declaration closed by `}` on its own line does not end the block (`readNodes`
-`continue`s past the `shouldStop` break): the following lines are parsed INSIDE it, one level deeper per
-such line, while `ctx.nesting` is back at 0 — the model mirrors it; the depth of what `read` returns is
-bounded all the same (`C20_output_wellformed`, thanks to the unconditional `checkNesting` of fix 2) -/
-theorem C20_same_line_close_keeps_nesting :
-    (match Cfg.read asciiUni noFs [] "x { $(m) = v }\ny { (s) }\nz $(m)\n".toList with
-      | .ok ns => printList ns
-      | _ => []) = "\"x\" {\n\"y\" {\n\"z\" \"v\"\n}\n}\n".toList := by
-  decide +kernel
+/-- a macro or snippet declaration that is the last thing in a block closed on the same line
+(`x { $(m) = v }`, `y { (s) }`) is a declaration inside a block and is refused like one written on a line
+of its own (fix 4; before it `readNodes` `continue`d past the `shouldStop` break and went on reading INSIDE
+the closed block with `ctx.nesting` one too low: one level of recursion per such line, without any limit) -/
+theorem C20_same_line_close_refused :
+    (match Cfg.read asciiUni noFs [] "x { $(m) = v }\nz $(m)\n".toList with
+      | .err k l => (k == ErrKind.macroNotTop) && l == 1
+      | _ => false) = true ∧
+    (match Cfg.read asciiUni noFs [] "y { (s) }\nz\n".toList with
+      | .err k l => (k == ErrKind.snippetNotTop) && l == 1
+      | _ => false) = true := by
+  constructor <;> decide +kernel
 
 /-- self-importing snippet: terminates with the import expansion limit error -/
 theorem C20_self_import_terminates :
@@ -3513,6 +3516,342 @@ example : UniStd asciiUni := by
   rcases hc with rfl | rfl | rfl | rfl | rfl | rfl <;> exact ⟨by decide, by decide⟩
 
 example : argsOKL sampleTree = true := by decide
+
+/-! ## Recursion depth of the block parser (round 8)
+
+`readNodesD` … (`Model/Cfg.lean`) is the block parser with the number of simultaneously active `readNodes`
+calls made explicit.  `parser_erase`: dropping the bookkeeping gives back the parser all other theorems are
+about.  `parser_depth`: the invariant "calls active ≤ `ctx.nesting` + 1" — `ctx.nesting` is only ever
+decremented immediately before the `readNodes` call that incremented it returns (a `}` at the start of a
+line, or `}` as the last argument of a directive; since fix 4 a declaration in that position is refused
+instead of carrying on inside the block) — so the check `ctx.nesting > 255` at the START of `readNodes`
+bounds the recursion while parsing, for every input. -/
+
+theorem DRes.bind_res {α β} (x : DRes α) (f : α → DRes β) :
+    (x.bind f).res = Res.bind x.res (fun a => (f a).res) := by
+  obtain ⟨r, p⟩ := x
+  cases r <;> rfl
+
+@[simp] theorem DRes.step_res {α} (d : Nat) (x : Res α) : (DRes.step d x).res = x := rfl
+@[simp] theorem DRes.step_peak {α} (d : Nat) (x : Res α) : (DRes.step d x).peak = d := rfl
+
+theorem Res.bind_congr {α β} (x : Res α) (f g : α → Res β) (h : ∀ a, x = .ok a → f a = g a) :
+    Res.bind x f = Res.bind x g := by
+  cases x <;> simp [Res.bind]
+  exact h _ rfl
+
+def EraseInv (u : Uni) (fuel : Nat) : Prop :=
+  (∀ d c node b, (argLoopD u fuel d c node b).res = argLoop u fuel c node b) ∧
+  (∀ d c node, (afterArgsD u fuel d c node).res = afterArgs u fuel c node) ∧
+  (∀ d c res b, (nodesLoopD u fuel d c res b).res = nodesLoop u fuel c res b) ∧
+  (∀ d c, (readNodeD u fuel d c).res = readNode u fuel c) ∧
+  (∀ d c, (readNodesD u fuel d c).res = readNodes u fuel c)
+
+theorem parser_erase (u : Uni) : ∀ fuel, EraseInv u fuel := by
+  intro fuel
+  induction fuel with
+  | zero =>
+    refine ⟨?_, ?_, ?_, ?_, ?_⟩ <;> intros <;> simp [argLoopD, afterArgsD, nodesLoopD, readNodeD, readNodesD, argLoop, afterArgs, nodesLoop, readNode, readNodes]
+  | succ fuel ih =>
+    obtain ⟨ihArg, ihAfter, ihLoop, ihNode, ihNodes⟩ := ih
+    refine ⟨?_, ?_, ?_, ?_, ?_⟩
+    · intro d c node b
+      simp only [argLoopD, argLoop, DRes.bind_res, DRes.step_res, bind_eq]
+      apply Res.bind_congr
+      intro r _
+      split
+      · split
+        · rw [DRes.bind_res, ihNodes]
+          apply Res.bind_congr
+          intro rc _
+          exact ihAfter _ _ _
+        · exact ihArg _ _ _ _
+      · exact ihAfter _ _ _
+    · intro d c node
+      simp only [afterArgsD, afterArgs]
+      split
+      · exact ihArg _ _ _ _
+      · rfl
+    · intro d c res b
+      simp only [nodesLoopD, nodesLoop, DRes.bind_res, DRes.step_res, bind_eq]
+      apply Res.bind_congr
+      intro r _
+      split
+      · rfl
+      · split
+        · rfl
+        · rw [DRes.bind_res, ihNode]
+          apply Res.bind_congr
+          intro rn _
+          rw [DRes.bind_res]
+          apply Res.bind_congr
+          intro e _
+          try simp only [DRes.step_res]
+          split
+          · split
+            · rfl
+            · rw [DRes.bind_res]
+              apply Res.bind_congr
+              intro nm _
+              exact ihLoop _ _ _ _
+          · split
+            · split
+              · rfl
+              · split
+                · rfl
+                · exact ihLoop _ _ _ _
+            · rw [DRes.bind_res]
+              apply Res.bind_congr
+              intro nm _
+              split
+              · rfl
+              · exact ihLoop _ _ _ _
+    · intro d c
+      simp only [readNodeD, readNode]
+      split
+      · rfl
+      · rw [DRes.bind_res]
+        apply Res.bind_congr
+        intro node _
+        exact ihArg _ _ _ _
+    · intro d c
+      simp only [readNodesD, readNodes]
+      split
+      · rfl
+      · exact ihLoop _ _ _ _
+
+/-- the peak is at most `B`, and a value satisfies `P` -/
+def DP {α} (B : Nat) (P : α → Prop) (x : DRes α) : Prop := x.peak ≤ B ∧ OkP P x.res
+
+theorem DP.bind {α β} {B : Nat} {P : α → Prop} {Q : β → Prop} {x : DRes α} {f : α → DRes β}
+    (hx : DP B P x) (hf : ∀ a, P a → DP B Q (f a)) : DP B Q (x.bind f) := by
+  obtain ⟨r, p⟩ := x
+  obtain ⟨h1, h2⟩ := hx
+  cases r with
+  | ok a =>
+    have := hf a h2
+    exact ⟨Nat.max_le.mpr ⟨h1, this.1⟩, this.2⟩
+  | err k l => exact ⟨h1, trivial⟩
+  | panic => exact ⟨h1, trivial⟩
+  | fuel => exact ⟨h1, trivial⟩
+
+theorem DP.step {α} {B d : Nat} {P : α → Prop} {x : Res α} (hd : d ≤ B) (hx : OkP P x) : DP B P (DRes.step d x) :=
+  ⟨hd, hx⟩
+
+theorem DP.mono {α} {B : Nat} {P Q : α → Prop} {x : DRes α} (hx : DP B P x) (h : ∀ a, P a → Q a) : DP B Q x :=
+  ⟨hx.1, hx.2.mono h⟩
+
+theorem nextArg_nest (c : Ctx) : OkP (fun r : Bool × Ctx => r.2.nesting = c.nesting) c.nextArg := by
+  unfold Ctx.nextArg
+  repeat' split
+  all_goals simp [OkP]
+
+theorem nextLine_nest (c : Ctx) : OkP (fun r : Bool × Ctx => r.2.nesting = c.nesting) c.nextLine := by
+  unfold Ctx.nextLine
+  repeat' split
+  all_goals simp [OkP]
+
+theorem next_nest (c : Ctx) : c.next.2.nesting = c.nesting := by
+  unfold Ctx.next; split <;> rfl
+
+theorem advanceArg_nest (c : Ctx) (b : Bool) : OkP (fun r : Bool × Ctx => r.2.nesting = c.nesting) (advanceArg c b) := by
+  unfold advanceArg
+  apply OkP.bind (nextArg_nest c)
+  intro r hr
+  split
+  · exact hr
+  · split
+    · exact (nextLine_nest r.2).mono (fun a h => by rw [h, hr])
+    · exact hr
+
+theorem advanceLine_nest (c : Ctx) (b : Bool) : OkP (fun r : Bool × Ctx => r.2.nesting = c.nesting) (advanceLine c b) := by
+  unfold advanceLine
+  split
+  · apply OkP.bind (nextLine_nest c)
+    intro r hr
+    split
+    · exact hr
+    · split
+      · simp [OkP, Ctx.err]
+      · show r.2.next.2.nesting = c.nesting
+        rw [next_nest, hr]
+  · exact next_nest c
+
+theorem finishNode_ctx (u : Uni) (c : Ctx) (node : Node) : OkP (fun r : Node × Ctx => r.2 = c) (finishNode u c node) :=
+  (finishNode_spec u c node).okp.mono (fun _ h => h.1)
+
+theorem closeEdge_nest (node : Node) (c : Ctx) :
+    OkP (fun e : Node × Ctx × Bool => (e.2.2 = false ∧ e.2.1.nesting = c.nesting) ∨
+      (e.2.2 = true ∧ e.2.1.nesting = c.nesting - 1)) (closeEdge node c) := by
+  unfold closeEdge
+  split
+  · split
+    · simp [OkP, Ctx.err]
+    · simp [OkP]
+  · simp [OkP]
+
+/-- bound on the number of simultaneously active `readNodes` calls: the call that is refused by the
+nesting check is number `255 + 3` at most -/
+def maxParseDepth : Nat := 258
+
+def DepthInv (u : Uni) (fuel : Nat) : Prop :=
+  (∀ (d : Nat) c node b, (d : Int) ≤ c.nesting + 1 → d ≤ 257 →
+      DP maxParseDepth (fun r : Node × Ctx => (d : Int) ≤ r.2.nesting + 1) (argLoopD u fuel d c node b)) ∧
+  (∀ (d : Nat) c node, (d : Int) ≤ c.nesting + 1 → d ≤ 257 →
+      DP maxParseDepth (fun r : Node × Ctx => (d : Int) ≤ r.2.nesting + 1) (afterArgsD u fuel d c node)) ∧
+  (∀ (d : Nat) c res b, (d : Int) ≤ c.nesting + 1 → d ≤ 257 →
+      DP maxParseDepth (fun r : List Node × Ctx => (d : Int) ≤ r.2.nesting + 2) (nodesLoopD u fuel d c res b)) ∧
+  (∀ (d : Nat) c, (d : Int) ≤ c.nesting + 1 → d ≤ 257 →
+      DP maxParseDepth (fun r : Node × Ctx => (d : Int) ≤ r.2.nesting + 1) (readNodeD u fuel d c)) ∧
+  (∀ (d : Nat) c, (d : Int) ≤ c.nesting + 1 → d ≤ 257 →
+      DP maxParseDepth (fun r : List Node × Ctx => (d : Int) ≤ r.2.nesting + 1) (readNodesD u fuel d c))
+
+theorem parser_depth (u : Uni) : ∀ fuel, DepthInv u fuel := by
+  intro fuel
+  induction fuel with
+  | zero =>
+    refine ⟨?_, ?_, ?_, ?_, ?_⟩ <;> intros <;>
+      simp [argLoopD, afterArgsD, nodesLoopD, readNodeD, readNodesD, DP, OkP, maxParseDepth] <;> omega
+  | succ fuel ih =>
+    obtain ⟨ihArg, ihAfter, ihLoop, ihNode, ihNodes⟩ := ih
+    have h258 : ∀ d : Nat, d ≤ 257 → d ≤ maxParseDepth := fun d h => by unfold maxParseDepth; omega
+    refine ⟨?_, ?_, ?_, ?_, ?_⟩
+    · intro d c node b hd h257
+      simp only [argLoopD]
+      apply DP.bind (DP.step (h258 d h257) (advanceArg_nest c b))
+      intro r hr
+      split
+      · split
+        · apply DP.bind (ihNodes d r.2 (by rw [hr]; exact hd) h257)
+          intro rc hrc
+          exact ihAfter d rc.2 _ hrc h257
+        · exact ihArg d r.2 _ false (by rw [hr]; exact hd) h257
+      · exact ihAfter d r.2 node (by rw [hr]; exact hd) h257
+    · intro d c node hd h257
+      simp only [afterArgsD]
+      split
+      · exact ihArg d c _ true hd h257
+      · exact DP.step (h258 d h257) ((finishNode_ctx u c node).mono (fun r h => by rw [h]; exact hd))
+    · intro d c res b hd h257
+      simp only [nodesLoopD]
+      apply DP.bind (DP.step (h258 d h257) (advanceLine_nest c b))
+      intro r hr
+      split
+      · exact DP.step (h258 d h257) (by show (d : Int) ≤ r.2.nesting + 2; omega)
+      · split
+        · apply DP.step (h258 d h257)
+          split
+          · simp [OkP, Ctx.err]
+          · show (d : Int) ≤ (r.2.nesting - 1) + 2; omega
+        · apply DP.bind (ihNode d r.2 (by rw [hr]; exact hd) h257)
+          intro rn hrn
+          apply DP.bind (DP.step (h258 d h257) (closeEdge_nest rn.1 rn.2))
+          intro e he
+          try simp only []
+          split
+          · split
+            · exact DP.step (h258 d h257) (by simp [OkP, Ctx.err])
+            · rename_i hcond
+              have hflag : e.2.2 = false := by
+                cases hf : e.2.2 <;> simp_all
+              have hn : e.2.1.nesting = rn.2.nesting := by
+                rcases he with ⟨_, h⟩ | ⟨h, _⟩
+                · exact h
+                · rw [hflag] at h; cases h
+              apply DP.bind (DP.step (h258 d h257) (OkP.triv _))
+              intro nm _
+              exact ihLoop d _ res true (by show (d : Int) ≤ e.2.1.nesting + 1; omega) h257
+          · split
+            · split
+              · exact DP.step (h258 d h257) (by simp [OkP, Ctx.err])
+              · rename_i hcond
+                have hflag : e.2.2 = false := by
+                  cases hf : e.2.2 <;> simp_all
+                have hn : e.2.1.nesting = rn.2.nesting := by
+                  rcases he with ⟨_, h⟩ | ⟨h, _⟩
+                  · exact h
+                  · rw [hflag] at h; cases h
+                split
+                · exact DP.step (h258 d h257) (by simp [OkP, Ctx.err])
+                · exact ihLoop d _ res true (by show (d : Int) ≤ e.2.1.nesting + 1; omega) h257
+            · apply DP.bind (DP.step (h258 d h257) (OkP.triv _))
+              intro nm _
+              split
+              · apply DP.step (h258 d h257)
+                show (d : Int) ≤ e.2.1.nesting + 2
+                rcases he with ⟨_, h⟩ | ⟨_, h⟩ <;> omega
+              · rename_i hflag
+                have hn : e.2.1.nesting = rn.2.nesting := by
+                  rcases he with ⟨_, h⟩ | ⟨h, _⟩
+                  · exact h
+                  · exact absurd h hflag
+                exact ihLoop d _ _ true (by omega) h257
+    · intro d c hd h257
+      simp only [readNodeD]
+      split
+      · exact DP.step (h258 d h257) (by simp [OkP])
+      · apply DP.bind (DP.step (h258 d h257) (OkP.triv _))
+        intro node _
+        exact ihArg d c node false hd h257
+    · intro d c hd h257
+      simp only [readNodesD]
+      split
+      · exact DP.step (by unfold maxParseDepth; omega) (by simp [OkP, Ctx.err])
+      · rename_i hlim
+        have := ihLoop (d + 1) { c with nesting := c.nesting + 1 } [] false
+          (by show ((d + 1 : Nat) : Int) ≤ c.nesting + 1 + 1; omega) (by omega)
+        exact this.mono (fun r hr => by
+          have : ((d + 1 : Nat) : Int) ≤ r.2.nesting + 2 := hr
+          omega)
+
+theorem readNodesD_res (u : Uni) (fuel d : Nat) (c : Ctx) : (readNodesD u fuel d c).res = readNodes u fuel c :=
+  (parser_erase u fuel).2.2.2.2 d c
+
+theorem C20_parser_recursion_bounded_gen (u : Uni) (fuel : Nat) (toks : List Token) (file : Nat) :
+    (readNodesD u fuel 0 { toks := toks, file := file }).peak ≤ maxParseDepth ∧
+      (readNodesD u fuel 0 { toks := toks, file := file }).res = readNodes u fuel { toks := toks, file := file } :=
+  ⟨((parser_depth u fuel).2.2.2.2 0 { toks := toks, file := file } (by show ((0 : Nat) : Int) ≤ -1 + 1; omega) (by omega)).1,
+   readNodesD_res u fuel 0 _⟩
+
+theorem C20_parser_recursion_bounded (u : Uni) (src : Str) : parsePeakDepth u src ≤ maxParseDepth :=
+  (C20_parser_recursion_bounded_gen u _ (lexAll src) 0).1
+
+theorem C20_parser_recursion_bounded_bytes (u : Uni) (bs : List Nat) : parsePeakDepth u (decodeUtf8 bs) ≤ 255 + 3 :=
+  C20_parser_recursion_bounded u _
+
+example : parsePeakDepth asciiUni "a {\n b {\n }\n}\nc\n".toList = 3 := by decide +kernel
+
+theorem C20_T1_parse_time_nesting_check :
+    ("parse.go", "readNodes", "ctx.nesting", ">", 255) ∈ Generated.CfgFacts.comparisons := by decide
+
+
+/-! ## The import budget charges exactly what is spliced in (round 8) -/
+
+theorem C20_import_charge (u : Uni) (fs : Fs) (prev : Nat → Maps → Node → Nat → Res (Node × Maps)) (l : Nat)
+    (m m' : Maps) (name : Str) (rest st : List Node) (d : Nat) (sn ma : Bool) (f ln : Nat) (hd : d ≤ 255)
+    (hres : resolveImport u fs prev m (.mk importName [name] false [] sn ma f ln) name d = .ok (st, m')) :
+    impList u fs prev l m (.mk importName [name] false [] sn ma f ln :: rest) d =
+      if m'.cnt + (1 + sizeL st) > maxExpandedNodes then .err .importNodes ln
+      else Res.bind (impList u fs prev l { m' with cnt := m'.cnt + (1 + sizeL st) } rest d)
+        (fun rr => .ok (st ++ rr.1, true, rr.2.2)) := by
+  have hd' : ¬ d > 255 := by omega
+  simp [impList, impNode, bind_eq, Res.bind, Node.name, Node.args, Node.line, hd', hres, Nat.add_assoc]
+
+theorem length_le_sizeL : ∀ ns : List Node, ns.length ≤ sizeL ns
+  | [] => by simp [sizeL]
+  | n :: ns => by
+    have := length_le_sizeL ns
+    have := sizeN_eq n
+    simp only [sizeL, List.length_cons]; omega
+
+example : sizeL [.mk "w".toList [] true [.mk "p".toList [] false [] false false 0 2, .mk "q".toList [] false [] false false 0 3] false false 0 1] = 3 := by
+  decide
+
+theorem C20_tree_size_le_tokens_plus_charges (u : Uni) (fs : Fs) (src : Str) (r : List Node × Maps)
+    (h : readTree u fs src = .ok r) :
+    sizeL r.1 ≤ (lexAll src).length + r.2.cnt ∧ r.2.cnt ≤ maxExpandedNodes := by
+  have := (readTreeWith_size u (expandImports u fs importGas) (expandImports_size u fs importGas) src 0 0 0).of_ok h
+  exact ⟨by omega, this.2.2 (by unfold maxExpandedNodes; omega)⟩
 
 /-! ## T1: constants of the current tree (regenerated on every run) agree with the model -/
 
